@@ -97,6 +97,7 @@ class Walker:
         self.recorded = []                         # real messages in arrival order
         self.conn_names = []                       # names of connections opened so far
         self.tag_names = {}                        # connection tag -> name (by first appearance)
+        self.app_ids = {}                          # connection name -> app id
         self.conn_of = {}                          # id(message) -> connection name
         self.mi = 0
         self.changes = dict(filter=0, selection=0, shown=0, hidden=0, listings=0)
@@ -128,6 +129,9 @@ class Walker:
             self.res.bad('message-on-wrong-connection', '%r attributed to %s, its tag says %s' % (seg.text, m.obj.connection.name(), name))
         if name not in self.conn_names:
             self.conn_names.append(name)
+        from core import wl as _wl
+        if m.name == 'set_app_id' and m.args and isinstance(m.args[0], _wl.Arg.String) and m.args[0].value:
+            self.app_ids[name] = m.args[0].value     # `connection X` falls back to the app id when no connection is named X
         exp = (self.sel is None or name == self.sel) and self.filter_matches(m)
         shown = [l for l in seg.out_lines() if session.MSG_LINE.match(l)]
         return m, exp, shown
@@ -197,12 +201,13 @@ class Walker:
                     self.changes['selection'] += 1
                 self.sel = None
             else:
-                for n in self.conn_names:
-                    if n is not None and n.lower() == second.lower():
-                        if self.sel != n:
-                            self.changes['selection'] += 1
-                        self.sel = n
-                        break
+                target = next((n for n in self.conn_names if n is not None and n.lower() == second.lower()), None)
+                if target is None:
+                    target = next((n for n in self.conn_names if self.app_ids.get(n, '').lower() == second.lower()), None)
+                if target is not None:
+                    if self.sel != target:
+                        self.changes['selection'] += 1
+                    self.sel = target
         return cmd + (':arg' if second else '')
 
 
